@@ -1,3 +1,4 @@
+import Cactus.Lemmas.CollectLayout
 import Cactus.Lemmas.GroupOrder
 import Cactus.Lemmas.Layout
 import Cactus.Lemmas.Basic
@@ -86,5 +87,25 @@ non-group block without that property ends in `uaf` in one order and not in the 
 theorem C09_group_order_irrelevant : type_of% @group_order_irrelevant_reorder := @group_order_irrelevant_reorder
 theorem C09_group_block_ready : type_of% @ready_of_inv := @ready_of_inv
 theorem C09_release_order_irrelevant : type_of% @releaseWeaks_perm := @releaseWeaks_perm
+
+
+/-! ## A whole collection is layout independent (`Cactus.Lemmas.CollectLayout`)
+
+`C09_collection_layout_independent`: in any state satisfying the invariants in which every stored
+handle is recorded (`Full`) and the orphan test passes for the group of `o`, whatever the two
+layouts (hints) `h1`, `h2`: running the group teardown to the end — phase 1, phase 2, every
+member's destructor (quiet values: no script, no panic), phase 3 — ends with the control stack back
+where it was, in **equal heaps** (so every count observable afterwards is equal), equal handle
+tables of the program, no error, and event logs that are permutations of each other (the same
+objects destroyed and released; only the order inside the group differs).  Together with
+`C09_same_decision_under_every_layout` (table order changes neither the decision nor the member
+set) this is the property for one collecting operation; what is still not proved is the lift to
+whole histories (an induction over operations carrying "equal up to table order and log order"). -/
+
+theorem C09_collection_layout_independent : type_of% @collection_layout_independent :=
+  @collection_layout_independent
+theorem C09_collected_values_hold_only_dead_handles : type_of% @collected_values_hold_dead_handles :=
+  @collected_values_hold_dead_handles
+theorem C09_full_implies_contract : type_of% @full_contract := @full_contract
 
 end Cactus
